@@ -225,6 +225,15 @@ def check_all(ctx, tags, ran, periods, ev1, ev2, evo, rec_metric, rec_obs, rec_l
     # ---- observable evaluator
     want_ep = acted(po)
     ctx.count("observable_evaluations_recorded", len(rec_obs))
+    if not rec_obs and len(evo) > 0:
+        # the evaluator no longer goes through system.statistics: the independent record could not be made; the schedule is
+        # still checked through the public accessor, the values only for self-consistency (CSV vs accessors below)
+        ctx.count("observable_record_unobservable")
+        if list(evo.epochs) != want_ep:
+            ctx.violation("observable-schedule", f"observables (period {po}) recorded at {list(evo.epochs)}, expected {want_ep}",
+                          tags=dict(tags, cb="ObservableEvaluator"), witness=wit)
+        rec_obs = [(int(e), {n: dict(evo.get_value(n, j)) for n in evo.names}, {"num_samples": 6, "num_chains": 3, "burn_in": 2, "steps": 1})
+                   for j, e in enumerate(evo.epochs)]
     if [e for e, _, _ in rec_obs] != want_ep:
         ctx.violation("observable-schedule", f"observables (period {po}) evaluated at {[e for e, _, _ in rec_obs]}, expected {want_ep}",
                       tags=dict(tags, cb="ObservableEvaluator"), witness=wit)
